@@ -23,6 +23,8 @@ type E2Spec struct {
 	// Auto is the reactive broker: its answers become readable the moment the
 	// gateway has written the packet.
 	Auto func(p refmqtt.Pkt) [][]byte
+	// CloseOn: the broker closes the connection the moment it has read such a packet (after Auto's answers).
+	CloseOn func(p refmqtt.Pkt) bool
 	// AutoClient is the reactive client: its datagrams become readable the
 	// moment the gateway has written the datagram they answer.
 	AutoClient func(p refsn.Pkt, nth int) [][]byte
@@ -48,13 +50,25 @@ func RunE2(t *testing.T, sp E2Spec, prefix []int) explore.ExecResult {
 		}
 		g.TakeSN()
 		g.TakeMQ()
-		if sp.Auto != nil && g.mqGW != nil {
-			g.mqGW.Responder = func(b []byte) [][]byte {
+		if (sp.Auto != nil || sp.CloseOn != nil) && g.mqGW != nil {
+			mq := g.mqGW
+			mq.Responder = func(b []byte) [][]byte {
 				p, _, err := refmqtt.Parse(b)
 				if err != nil {
 					return nil
 				}
-				return sp.Auto(p)
+				var out [][]byte
+				if sp.Auto != nil {
+					out = sp.Auto(p)
+				}
+				if sp.CloseOn != nil && sp.CloseOn(p) {
+					for _, r := range out {
+						mq.Inject(r)
+					}
+					mq.InjectEOF()
+					return nil
+				}
+				return out
 			}
 		}
 		if sp.AutoClient != nil {
